@@ -1,6 +1,8 @@
-/* Native confirmation driver for C20: N threads work on PRIVATE data (parse incl. failing parses with return_parse_end, print numbers
- * that need %g formatting, duplicate, compare, minify, patch, delete) and compare every result with the value computed sequentially
- * before the threads start. exit 0 = all equal. Built twice: -fsanitize=thread (race report) and plain (result comparison). */
+/* Native confirmation driver for C20: N threads work on PRIVATE data (parse incl. \u escapes and failing parses with return_parse_end,
+ * print numbers that need %g formatting, duplicate, compare, minify, generate patches, delete). No library call happens before the
+ * threads start (so that first-use initialisation inside the library is exercised concurrently); every thread records its first
+ * results and checks all later rounds against them; after the threads have been joined main computes the sequential results and
+ * compares. exit 0 = all equal. Built twice: -fsanitize=thread (race report) and plain (result comparison). */
 #include <pthread.h>
 #include <time.h>
 #include <stdio.h>
@@ -9,32 +11,35 @@
 #include "cJSON.h"
 #include "cJSON_Utils.h"
 #define NT 6
-#define ROUNDS 400
-typedef struct { int id; char doc[160]; char bad[64]; char expect_print[400]; long expect_end; char expect_min[160]; int fail; } job;
+#define ROUNDS 300
+typedef struct { int id; char doc[200]; char bad[64]; char print[500]; long end; char min[200]; int have; int fail; } job;
 static job jobs[NT]; static pthread_barrier_t barrier; static volatile int stop_all;
-static void one(job *j, int check)
+static void one(job *j, job *ref)
 {
-    const char *end = 0; cJSON *t, *d, *b; char *s; char m[160];
+    const char *end = 0; cJSON *t, *d, *b; char *s; char m[200];
     t = cJSON_Parse(j->doc);
+    if (t == 0) { j->fail |= 128; return; }
     s = cJSON_PrintUnformatted(t);
-    if (check) { if (strcmp(s, j->expect_print) != 0) j->fail |= 1; } else strcpy(j->expect_print, s);
+    if (ref->have) { if (strcmp(s, ref->print) != 0) j->fail |= 1; } else strcpy(ref->print, s);
     d = cJSON_Duplicate(t, 1);
     if (!cJSON_Compare(t, d, 1)) j->fail |= 2;
     b = cJSON_ParseWithOpts(j->bad, &end, 1);
     if (b != 0) j->fail |= 4;
-    if (check) { if (end - j->bad != j->expect_end) j->fail |= 8; } else j->expect_end = end - j->bad;
+    if (end - j->bad != j->end) j->fail |= 8;
     strcpy(m, j->doc); cJSON_Minify(m);
-    if (check) { if (strcmp(m, j->expect_min) != 0) j->fail |= 16; } else strcpy(j->expect_min, m);
+    if (ref->have) { if (strcmp(m, ref->min) != 0) j->fail |= 16; } else strcpy(ref->min, m);
     { cJSON *p = cJSONUtils_GeneratePatchesCaseSensitive(t, d); if (cJSON_GetArraySize(p) != 0) j->fail |= 32; cJSON_Delete(p); }
+    ref->have = 1;
     cJSON_free(s); cJSON_Delete(d); cJSON_Delete(t);
 }
 static void *worker(void *a)
 {
     job *j = (job *)a; int r;
-    for (r = 0; r < ROUNDS; r++) one(j, 1);
+    pthread_barrier_wait(&barrier);
+    for (r = 0; r < ROUNDS; r++) one(j, j);
     /* tight phase: only failing parses that report their end position (the window in which a shared error record would be observed) */
     { time_t t0; long q; pthread_barrier_wait(&barrier); t0 = time(0);
-      for (q = 0; q < 20000000L && !stop_all; q++) { const char *end = 0; cJSON *b = cJSON_ParseWithOpts(j->bad, &end, 1); if (b != 0 || end - j->bad != j->expect_end) { j->fail |= 64; stop_all = 1; break; } if ((q & 1023) == 0 && time(0) - t0 >= 3) break; } }
+      for (q = 0; q < 20000000L && !stop_all; q++) { const char *end = 0; cJSON *b = cJSON_ParseWithOpts(j->bad, &end, 1); if (b != 0 || end - j->bad != j->end) { j->fail |= 64; stop_all = 1; break; } if ((q & 1023) == 0 && time(0) - t0 >= 3) break; } }
     return 0;
 }
 int main(void)
@@ -42,13 +47,18 @@ int main(void)
     pthread_t th[NT]; int i, bad = 0;
     for (i = 0; i < NT; i++) {
         jobs[i].id = i;
-        sprintf(jobs[i].doc, "{ \"k%d\" : [ %d.%d25, 0.1%d, 1e-%d, \"s%d\" ], \"n\" : { \"x\" : %d.5 } }", i, i + 1, i, i, i + 3, i, i * 7);
+        sprintf(jobs[i].doc, "{ \"k%d\" : [ %d.%d25, 0.1%d, 1e-%d, \"s\\u00e%d\\uD83D\\uDE0%d\" ], \"n\" : { \"x\" : %d.5 } }", i, i + 1, i, i, i + 3, i, i, i * 7);
         sprintf(jobs[i].bad, "[%d, %d,%*s?", i, i, i + 1, "");
-        one(&jobs[i], 0);
+        jobs[i].end = (long)(strchr(jobs[i].bad, '?') - jobs[i].bad);        /* where a failing parse must report its end: no library call needed */
     }
     pthread_barrier_init(&barrier, 0, NT);
     for (i = 0; i < NT; i++) pthread_create(&th[i], 0, worker, &jobs[i]);
     for (i = 0; i < NT; i++) pthread_join(th[i], 0);
-    for (i = 0; i < NT; i++) if (jobs[i].fail) { printf("thread %d: results differ from the sequential run (mask %d)\n", i, jobs[i].fail); bad = 1; }
+    for (i = 0; i < NT; i++) {
+        job seq; memset(&seq, 0, sizeof seq); strcpy(seq.doc, jobs[i].doc); strcpy(seq.bad, jobs[i].bad); seq.end = jobs[i].end;
+        one(&seq, &seq);                                                       /* sequential reference, computed afterwards */
+        if (seq.fail || strcmp(seq.print, jobs[i].print) != 0 || strcmp(seq.min, jobs[i].min) != 0) jobs[i].fail |= 256;
+        if (jobs[i].fail) { printf("thread %d: results differ from the sequential run (mask %d)\n", i, jobs[i].fail); bad = 1; }
+    }
     return bad;
 }
